@@ -377,7 +377,10 @@ func runC13(r *Run) {
 			if strings.HasPrefix(trimmed, "!") {
 				tab = append(tab, xOf(strings.TrimSpace(trimmed[1:])))
 			}
-			if class == "call" { // a bare call goes to the function map, which the model stream is not given: oracle only
+			if class == "call" || (class == "unspaced" && strings.Contains(text, "len(")) {
+				// a bare call - and an unspaced operator expression that begins with a call, which the engine also reads
+				// as a bare call with the rest of the text as its argument (finding class "unspaced") - goes to the
+				// function map, which the model stream is not given: oracle only
 				r.Eval("call:"+p.name+":"+text, true, nil)
 				continue
 			}
